@@ -223,6 +223,11 @@ pub fn junk_body(r: &mut Rng, kind: &str) -> Vec<u8> {
             b.extend_from_slice(&[1, 2, 3]);
             b
         }
+        "tiny" => {
+            // one- and two-byte frames that look like the start of every wire form
+            let all: &[&[u8]] = &[&[131], &[131, 68], &[131, 69], &[131, 70], &[112], &[112, 131], &[131, 68, 1], &[131, 68, 200], &[131, 69, 0], &[131, 70, 0, 0], &[112, 131, 104], &[68], &[131, 131]];
+            all[r.below(all.len() as u64) as usize].to_vec()
+        }
         "huge_count" => {
             let mut b = vec![112u8, 131];
             match r.below(3) {
@@ -255,5 +260,5 @@ pub fn junk_body(r: &mut Rng, kind: &str) -> Vec<u8> {
     }
 }
 
-pub const JUNK_A: &[&str] = &["random", "pt_garbage", "pt_truncated", "wrong_marker", "huge_count", "deep"];
-pub const JUNK_B: &[&str] = &["random", "pt_garbage", "pt_truncated", "wrong_marker", "huge_count", "deep", "hdr_truncated", "frag_hdr_short", "hdr_ok_term_bad", "hdr_ok_term_bad"];
+pub const JUNK_A: &[&str] = &["random", "pt_garbage", "pt_truncated", "wrong_marker", "huge_count", "deep", "tiny"];
+pub const JUNK_B: &[&str] = &["random", "pt_garbage", "pt_truncated", "wrong_marker", "huge_count", "deep", "hdr_truncated", "frag_hdr_short", "hdr_ok_term_bad", "hdr_ok_term_bad", "tiny", "tiny"];
